@@ -26,7 +26,8 @@ Definition ss_eqb (a b : soft_state) : bool :=
 Record ready_record := mkRR {
   rr_number : N;
   rr_last_entry : option (N * N);
-  rr_snapshot : option (N * N)
+  rr_snapshot : option (N * N);
+  rr_hs_changed : bool            (* the Ready's hard state changes term or vote *)
 }.
 
 Record light_ready := mkLR {
@@ -168,11 +169,13 @@ Definition rn_ready (n : rawnode) : Res (rawnode * ready) :=
                   | _ => let e := List.last ents entry_default in Some (e_index e, e_term e)
                   end in
   let ms3 := match ents with [] => false | _ => true end in
-  let persisted_msg := negb (is_leader raft) in
+  (* a leader sends before persisting, except while a Ready that changes term or
+     vote (this one or an outstanding one) is not yet persisted *)
+  let persisted_msg := negb (is_leader raft) || ms1 || existsb rr_hs_changed recs in
   let n1 := n <| rn_raft := raft |> <| rn_max_number := num |> <| rn_commit_since_index := csi |> in
   y <- gen_light_ready n1 ;;
   let '(n2, light) := y in
-  Ok (n2 <| rn_records := recs ++ [mkRR num rec_last rec_snap] |>,
+  Ok (n2 <| rn_records := recs ++ [mkRR num rec_last rec_snap ms1] |>,
       mkRd num rd_ss_ rd_hs_ rstates ents snap persisted_msg light (ms1 || ms2 || ms3)).
 
 (* RawNode::has_ready *)
@@ -194,7 +197,7 @@ Definition commit_ready (n : rawnode) (rd : ready) : Res rawnode :=
   match rn_records n with
   | [] => Panic site_rn_records_back
   | _ =>
-      let rr := List.last (rn_records n) (mkRR 0 None None) in
+      let rr := List.last (rn_records n) (mkRR 0 None None false) in
       if negb (rr_number rr =? rd_number rd) then Panic site_rn_number else
       l1 <- (match rr_snapshot rr with
              | Some (i, _) => stable_snap (r_log (rn_raft n)) i
